@@ -12,7 +12,7 @@ from sa.srcmodel import Program
 from sa.srcmodel import dotted
 
 
-def check_trim_carry_ownership(prog: Program, res: Result, rule: str) -> None:
+def check_trim_carry_ownership(prog: Program, res: Result, rule: str, exit_rule: str | None = None) -> None:
     """In every Tag.parse each parse_block is entered with the trim carry of the tag immediately before that block."""
     tag_base = prog.cls("liquid2.tag.Tag")
     n_pb = 0
@@ -63,7 +63,20 @@ def check_trim_carry_ownership(prog: Program, res: Result, rule: str) -> None:
                     cur = 0
             return cur
 
-        forward(cfg, 0, transfer, max)
+        IN = forward(cfg, 0, transfer, max)
+        if exit_rule is not None:
+            # the carry handed back to the parser must be the marker of the tag the stream is left on (the end tag):
+            # the last carry event on every path to a return is a parse_block (it stops on that tag and records its marker)
+            # or an explicit store, with no tag consumed since
+            for n in cfg.nodes:
+                if n.kind == "stmt" and isinstance(n.node, ast.Return) and n.id in IN:
+                    cur = transfer(n, IN[n.id], "")
+                    site = f"{m.file}:{n.node.lineno} {m.qualname}"
+                    what = f"{tc.name}.parse returns with the trim carry of the tag the stream is left on"
+                    if cur == 0:
+                        res.ok(exit_rule, site, what, "last carry event on every path is the closing parse_block or an explicit store")
+                    else:
+                        res.fail(exit_rule, file=m.file, line=n.node.lineno, qualname=m.qualname, construct=f"{tc.name}.parse: return with a stale carry", message=f"{tc.name}.parse can return after consuming a tag token without refreshing stream.trim_carry (a path with no parse_block after it): the text after the closing tag is trimmed by an earlier tag's marker and the closing tag's own marker is ignored", what=what)
         for c in calls:
             n_pb += 1
             node = next((n for n in cfg.nodes if n.node is not None and n.kind in ("stmt", "test") and any(x is c for x in ast.walk(n.node))), None)
